@@ -85,6 +85,28 @@ func init() {
 			transforms32.VerifAsmForwardDCT256(win)
 		case "go256":
 			transforms32.VerifForwardDCT256Go(win)
+		case "pub64", "pub256", "pub2d64", "pub2d256":
+			// the public entry points, through the library's own dispatch, with the assembly flag forced to a[3]
+			saved := transforms32.FlagUseASM
+			want := len(a) > 3 && a[3] == "asm"
+			if want && !saved {
+				return "noasm"
+			}
+			transforms32.FlagUseASM = want
+			defer func() { transforms32.FlagUseASM = saved }()
+			switch a[0] {
+			case "pub64":
+				transforms32.ForwardDCT64(win)
+			case "pub256":
+				transforms32.ForwardDCT256(win)
+			case "pub2d64":
+				r := transforms32.DCT2DHash64(win)
+				return f32sHex(r[:]) + " " + f32sHex(win)
+			case "pub2d256":
+				w2 := win
+				r := transforms32.DCT2DHash256(&w2)
+				return f32sHex(r[:]) + " " + fmt.Sprint(fnv32([]byte(f32sHex(win))))
+			}
 		case "asm2d64", "go2d64":
 			if a[0] == "asm2d64" && !transforms32.FlagUseASM {
 				return "noasm"
@@ -278,6 +300,44 @@ func runC18(c *Ctx) error {
 		c.Stat("kernel.2d64")
 		if a != "noasm" && a != g {
 			c.Violate(Case{Entry: "DCT2DHash64", Input: fmt.Sprintf("2d64 fnv=%d seed=%d k=%d", fnv32([]byte(h)), c.Seed, k), Expected: g[:min(len(g), 200)], Actual: a[:min(len(a), 200)], Kind: "wrong-value", Class: "asm2d-differs-from-portable"})
+		}
+		// the public function through its own dispatch, both ways: the hash must not depend on which kernel the machine selects
+		wk2 := &Worker{Timeout: 20 * time.Second}
+		pg, pa := wk2.Call(fmt.Sprintf("dct pub2d64 %s %d go", h, k%8)), wk2.Call(fmt.Sprintf("dct pub2d64 %s %d asm", h, k%8))
+		wk2.Close()
+		c.Stat("kernel.2d64.public")
+		if f := strings.Fields(pg); len(f) != 2 || f[0] != g {
+			c.Violate(Case{Entry: "DCT2DHash64", Input: fmt.Sprintf("2d64 fnv=%d seed=%d k=%d FlagUseASM=false", fnv32([]byte(h)), c.Seed, k), Expected: g[:min(len(g), 200)], Actual: pg[:min(len(pg), 200)], Kind: "wrong-value", Class: "public-portable-2d-differs-from-kernel-pair"})
+		}
+		if pa != "noasm" && canonNaN(strings.Join(strings.Fields(pa), "")) != canonNaN(strings.Join(strings.Fields(pg), "")) {
+			c.Violate(Case{Entry: "DCT2DHash64", Input: fmt.Sprintf("2d64 fnv=%d seed=%d k=%d", fnv32([]byte(h)), c.Seed, k), Expected: pg[:min(len(pg), 200)], Actual: pa[:min(len(pa), 200)], Kind: "wrong-value", Class: "public-2d-depends-on-dispatch"})
+		}
+	}
+	// the public 1-D entry points and the 256x256 2-D function under both dispatch settings
+	for k := 0; k < c.N(40, 400); k++ {
+		n := []int{64, 256}[k%2]
+		v := genVec(c, n, []int{0, 1, 1, 3}[c.Rng.Intn(4)])
+		h := f32sHex(v)
+		wk := &Worker{Timeout: 20 * time.Second}
+		pg, pa := wk.Call(fmt.Sprintf("dct pub%d %s %d go", n, h, k%8)), wk.Call(fmt.Sprintf("dct pub%d %s %d asm", n, h, k%8))
+		kg := wk.Call(fmt.Sprintf("dct go%d %s %d", n, h, k%8))
+		wk.Close()
+		c.Count(fmt.Sprint("pub", n, fnv32([]byte(h))), true)
+		c.Stat(fmt.Sprintf("kernel.public%d", n))
+		if canonNaN(pg) != canonNaN(kg) || (pa != "noasm" && canonNaN(pa) != canonNaN(kg)) {
+			c.Violate(Case{Entry: fmt.Sprintf("ForwardDCT%d", n), Input: h[:min(len(h), 400)], Expected: kg[:min(len(kg), 200)], Actual: pg[:min(len(pg), 100)] + " / " + pa[:min(len(pa), 100)], Kind: "wrong-value", Class: "public-1d-depends-on-dispatch"})
+		}
+	}
+	for k := 0; k < c.N(2, 12); k++ {
+		v := genVec(c, 256*256, []int{1, 1, 3}[c.Rng.Intn(3)])
+		h := f32sHex(v)
+		wk := &Worker{Timeout: 60 * time.Second}
+		pg, pa := wk.Call(fmt.Sprintf("dct pub2d256 %s %d go", h, k%8)), wk.Call(fmt.Sprintf("dct pub2d256 %s %d asm", h, k%8))
+		wk.Close()
+		c.Count(fmt.Sprint("pub2d256", fnv32([]byte(h))), true)
+		c.Stat("kernel.2d256.public")
+		if pa != "noasm" && canonNaN(pa) != canonNaN(pg) {
+			c.Violate(Case{Entry: "DCT2DHash256", Input: fmt.Sprintf("2d256 fnv=%d seed=%d k=%d", fnv32([]byte(h)), c.Seed, k), Expected: pg[:min(len(pg), 200)], Actual: pa[:min(len(pa), 200)], Kind: "wrong-value", Class: "public-2d-depends-on-dispatch"})
 		}
 	}
 	return nil
